@@ -116,7 +116,9 @@ func runCertExpiry(seed int64, pool map[string][]*poolKey, ca *caSet, dir string
 		}
 		var toks []got
 		for _, s := range signers {
+			w0 := time.Now().Unix()
 			tf := fetch(cl, fmt.Sprintf("http://127.0.0.1:%d/%s", a.Port, s.id))
+			w1 := time.Now().Unix()
 			if tf.err != nil {
 				return fmt.Sprintf("token request for %s: %v", s.id, tf.err)
 			}
@@ -125,8 +127,12 @@ func runCertExpiry(seed int64, pool map[string][]*poolKey, ca *caSet, dir string
 				continue
 			}
 			tv, ps := u.checkToken(tokenFromHeader(tf.header.Get("Authorization")))
+			if tv.Claims != nil {
+				// the ttl (5m) reaches far beyond the end of the certificates: exp is the configured ttl after iat all the same
+				ps = append(ps, checkClaims(tv.Claims, "anonymous", "iss-"+s.id, 5*time.Minute, w0, w1)...)
+			}
 			for _, p := range ps {
-				p.Detail = map[string]any{"finalizer": s.id, "phase": phase, "token": tv}
+				p.Detail = map[string]any{"finalizer": s.id, "phase": phase, "token": tv, "leaf_not_after": notAfter.UTC(), "bracket_unix": []int64{w0, w1}}
 				probs = append(probs, p)
 			}
 			if tv.Gen < 0 {
